@@ -15,7 +15,7 @@ class TranslateError(Exception):
     pass
 
 
-TOK = re.compile(r'\s*(?:(/\*.*?\*/)|("(?:[^"\\]|\\.)*"|\'(?:[^\'\\]|\\.)*\')|([A-Za-z_][A-Za-z_0-9]*(?:(?:\.|->)[A-Za-z_][A-Za-z_0-9]*)*)|(\d+)|'
+TOK = re.compile(r'\s*(?:(/\*.*?\*/|//[^\n]*)|("(?:[^"\\]|\\.)*"|\'(?:[^\'\\]|\\.)*\')|([A-Za-z_][A-Za-z_0-9]*(?:(?:\.|->)[A-Za-z_][A-Za-z_0-9]*)*)|(\d+)|'
                  r'(&&|\|\||==|!=|\+=|-=|\+\+|--|<=|>=|[-+*/%<>=!(){};,?:\[\]&|.]))', re.S)
 
 
@@ -82,6 +82,10 @@ def function_body(text, name):
             depth -= 1
         j += 1
     return text[i:j - 1]
+
+
+QUIET = set()
+DEFINE_FUNCS = ('visible_define', 'visible_define_str', 'visible_define_int', 'out_m4_define')
 
 
 class Parser:
@@ -155,6 +159,20 @@ class Parser:
             self.expect('op', ')')
             self.expect('op', ';')
             return (kind, msg)
+        if x[0] == 'id' and x[1] in DEFINE_FUNCS and self.peek(1) == ('op', '(') and self.peek(2)[0] == 'str':
+            self.next(); self.next()
+            name = eval(self.next()[1])
+            depth = 1
+            while depth:                                  # the value, if any, is not modelled
+                y = self.next()
+                if y[0] == 'eof':
+                    raise TranslateError('unterminated call')
+                if y == ('op', '('):
+                    depth += 1
+                elif y == ('op', ')'):
+                    depth -= 1
+            self.expect('op', ';')
+            return ('define', name, x[1])
         # assignment chain  a = b = c ;
         save = self.i
         try:
@@ -292,6 +310,7 @@ class Translation:
         self.fields = []          # names in order of first use
         self.msgs = []
         self.opaque = []          # token lists
+        self.volatile = set()     # variables some untranslated statement assigns: conditions on them are not translated
 
     def fld(self, name):
         if name not in self.fields:
@@ -335,6 +354,8 @@ class Translation:
         if self.is_const(e, env):
             return '.tt' if self.const(e, env) else '.ff'
         k = e[0]
+        if k == 'id' and e[1] in self.volatile:
+            raise TranslateError('condition on %s, which an untranslated statement assigns' % e[1])
         if k == 'id':
             return '(.truthy %d)' % self.fld(e[1])
         if k == 'call':
@@ -350,6 +371,8 @@ class Translation:
             if not self.is_const(b, env) or a[0] not in ('id', 'call'):
                 raise TranslateError('comparison is not variable-against-constant: %r' % (e,))
             name = a[1] + ('()' if a[0] == 'call' else '')
+            if name in self.volatile:
+                raise TranslateError('condition on %s, which an untranslated statement assigns' % name)
             t = '(.eq %d %s)' % (self.fld(name), lean_int(self.const(b, env)))
             return t if k == 'eq' else '(.not %s)' % t
         raise TranslateError('condition not understood: %r' % (e,))
@@ -379,13 +402,22 @@ class Translation:
                 v = self.const(c[2], env)
                 pre.append('(.set %d %s)' % (self.fld(c[1]), lean_int(v)))
                 c = ('num', v)
+            try:
+                ctext = self.cond(c, env)
+            except TranslateError:
+                self.opaque.append(('ast', s))              # the whole statement is left out
+                return seq(pre) if pre else None
             th = self.stmt(s[2], env)
             el = self.stmt(s[3], env) if s[3] is not None else None
             if th is None and el is None:
                 self.opaque.append(('if-without-modelled-effect', s))
                 return seq(pre) if pre else None
-            t = '(.ite %s %s %s)' % (self.cond(c, env), th or '.skip', el or '.skip')
+            t = '(.ite %s %s %s)' % (ctext, th or '.skip', el or '.skip')
             return seq(pre + [t])
+        if k == 'define':
+            if len(s) > 2 and s[2] == 'out_m4_define':
+                QUIET.add(s[1])            # defined without the `/* NAME */` echo in the scanner
+            return '(.set %d 1)' % self.fld('sym:' + s[1])
         if k == 'opaque':
             self.opaque.append(('stmt', s[1]))
             return None
@@ -416,22 +448,56 @@ def flat_tokens(x):
     return out
 
 
-def check_opaque(tr, what):
-    """what is left out may neither refuse nor assign to a modelled variable"""
+def check_opaque(tr, what, may_refuse=False):
+    """what is left out may neither refuse (unless `may_refuse`: then only what the program *defines*
+    is claimed, not that it gets through) nor assign to a modelled variable; returns the m4 symbols
+    defined inside statements that were left out"""
+    lost = set()
+
+    def walk(a):
+        if not isinstance(a, tuple):
+            return
+        if a and a[0] == 'define':
+            lost.add(a[1])
+        elif a and a[0] == 'assign' and isinstance(a[1], list):
+            for l in a[1]:
+                if l in tr.fields:
+                    tr.newly_volatile.add(l)
+        elif a and a[0] == 'err' and not may_refuse:
+            raise TranslateError('%s: a statement that was not understood calls flexerror' % what)
+        elif a and a[0] == 'opaque':
+            scan_tokens(flat_tokens(a[1]))
+        for y in a[1:] if a else ():
+            if isinstance(y, tuple):
+                walk(y)
+            elif isinstance(y, list):
+                for z in y:
+                    walk(z)
+
+    def scan_tokens(toks):
+        for i, t in enumerate(toks):
+            if t == ('id', 'flexerror') and not may_refuse:
+                raise TranslateError('%s: a statement that was not understood calls flexerror' % what)
+            if t[0] == 'id' and t[1] in DEFINE_FUNCS and i + 2 < len(toks) and toks[i + 2][0] == 'str':
+                lost.add(eval(toks[i + 2][1]))
+            if t[0] == 'id' and t[1] in tr.fields and i + 1 < len(toks) and toks[i + 1][0] == 'op' and \
+                    toks[i + 1][1] in ('=', '+=', '-=', '++', '--'):
+                tr.newly_volatile.add(t[1])
+
+    tr.newly_volatile = set()
     for kind, body in tr.opaque:
+        if kind == 'ast':
+            walk(body)
+            continue
         if kind == 'assign':
             for l in body:
                 if l in tr.fields:
-                    raise TranslateError('%s: %s is assigned something that is not a constant' % (what, l))
+                    tr.newly_volatile.add(l)
         toks = flat_tokens(body) if kind == 'stmt' else None
         if toks is None:
             continue
-        for i, t in enumerate(toks):
-            if t == ('id', 'flexerror'):
-                raise TranslateError('%s: a statement that was not understood calls flexerror' % what)
-            if t[0] == 'id' and t[1] in tr.fields and i + 1 < len(toks) and toks[i + 1][0] == 'op' and \
-                    toks[i + 1][1] in ('=', '+=', '-=', '++', '--'):
-                raise TranslateError('%s: a statement that was not understood assigns to %s' % (what, t[1]))
+        scan_tokens(toks)
+    return lost
 
 
 def c_constants(flexdef):
@@ -501,10 +567,26 @@ def generate(src):
     consts = c_constants(flexdef)
     tr = Translation(consts)
     # ---- check_options
-    body = function_body(main_c, 'check_options')
-    stmts = Parser(tokenize(body)).stmts_until_end()
-    prog = tr.stmt(('block', stmts))
-    nopaque_check = len(tr.opaque)
+    def translate_fn(name, may_refuse):
+        """translate a function body; variables that a statement left out assigns are *volatile*: a
+        condition on one is not translated either (fixed point)"""
+        stmts = Parser(tokenize(function_body(main_c, name))).stmts_until_end()
+        volatile = set()
+        nfields, nmsgs = len(tr.fields), len(tr.msgs)
+        for _round in range(8):
+            del tr.fields[nfields:]
+            del tr.msgs[nmsgs:]
+            t2 = Translation(consts)
+            t2.fields, t2.msgs, t2.volatile = tr.fields, tr.msgs, volatile
+            prog_text = t2.stmt(('block', stmts))
+            lost = check_opaque(t2, name, may_refuse=may_refuse)
+            if t2.newly_volatile <= volatile:
+                return prog_text, lost, volatile, len(t2.opaque)
+            volatile |= t2.newly_volatile
+        raise TranslateError('%s: no fixed point for the variables assigned by untranslated statements' % name)
+
+    prog, _lost0, volatile0, nopaque = translate_fn('check_options', False)
+    nopaque_check = nopaque
     # ---- option actions (sense = true / false)
     effects = []
     unmodelled = []
@@ -535,25 +617,55 @@ def generate(src):
                 defaults[l] = v
     if 'is_default_backend()' in tr.fields:
         defaults['is_default_backend()'] = 1      # skeletons.c: `backend = &backends[0]` until --emit says otherwise
-    check_opaque(tr, 'check_options')
+    # ---- readin(): which m4 symbols the skeleton gets to see
+    defs_prog, lost, volatile, _n = translate_fn('readin', True)
+    sym_fields = [n for n in tr.fields if n.startswith('sym:')]
+    defs_prog = seq(['(.set %d 0)' % tr.fields.index(n) for n in sym_fields] + [defs_prog])   # nothing is defined before
+    modelled_syms = [n for n in sym_fields if n[4:] not in lost]
+    pairs = []
+    for n in modelled_syms:
+        m = re.match(r'sym:(M4_MODE|M4_YY)_NO_(.+)$', n)
+        if m and 'sym:%s_%s' % (m.group(1), m.group(2)) in modelled_syms:
+            pairs.append((tr.fields.index('sym:%s_%s' % (m.group(1), m.group(2))), tr.fields.index(n)))
+    # ---- option variables first, m4 symbols after them (symBase): a symbol is then recognised by its number
+    order = [n for n in tr.fields if not n.startswith('sym:')] + [n for n in tr.fields if n.startswith('sym:')]
+    remap = {tr.fields.index(n): i for i, n in enumerate(order)}
+
+    def renum(text):
+        return re.sub(r'\(\.(truthy|eq|set) (\d+)', lambda m: '(.%s %d' % (m.group(1), remap[int(m.group(2))]), text)
+    prog, defs_prog = renum(prog), renum(defs_prog)
+    effects = [(n, renum(a), renum(b)) for n, a, b in effects]
+    pairs = [(remap[a], remap[b]) for a, b in pairs]
+    tr.fields[:] = order
+    sym_base = len([n for n in order if not n.startswith('sym:')])
     types = field_types(flexdef)
     # ---- value sets
     mentioned = {}
-    for f, k in re.findall(r'\(\.(?:eq|set) (\d+) \(?(-?\d+)\)?\)', prog + ' '.join(a + b for _, a, b in effects)):
+    for f, k in re.findall(r'\(\.(?:eq|set) (\d+) \(?(-?\d+)\)?\)', prog + defs_prog + ' '.join(a + b for _, a, b in effects)):
         mentioned.setdefault(int(f), set()).add(int(k))
     domains = []
     for i, name in enumerate(tr.fields):
         ty = types.get(name)
-        if name.endswith('()') or ty == 'bool':
+        if name.endswith('()') or ty == 'bool' or name.startswith('sym:'):
             dom = [0, 1]
         elif ty == 'trit':
             dom = sorted(v for n, v in consts.items() if n.startswith('trit_'))
         else:
             # int and the like: the constants the sources assign to it or compare it with
-            dom = sorted(mentioned.get(i, set()) | {defaults.get(name, 0)})
+            vals = mentioned.get(i, set()) | {defaults.get(name, 0)}
+            if not (vals - {0}):
+                vals |= {0, 1}      # an int or pointer only ever tested for zero: 0 and 1 stand for the two cases
+            dom = sorted(vals)
         domains.append(dom)
     q = lambda s: '"' + s.replace('\\', '\\\\').replace('"', '\\"').replace('\n', '\\n') + '"'
-    ident = lambda n: re.sub(r'\W', '_', n.replace('ctrl.', '').replace('()', '')).strip('_')
+    KEYWORDS = set('prefix infix infixl infixr postfix notation end namespace section open def theorem instance where at from have '
+                   'show fun do then else if in let match with by local private protected macro syntax structure class inductive '
+                   'import variable universe attribute export deriving mutual partial unsafe noncomputable abbrev example axiom '
+                   'opaque extends for return try catch finally unless rewrite'.split())
+
+    def ident(n):
+        x = re.sub(r'\W', '_', n.replace('ctrl.', '').replace('()', '').replace('sym:', 'sym_')).strip('_')
+        return x + '_v' if x in KEYWORDS else x
     L = []
     L.append('-- GENERATED by tools/fv/gen_options.py from src/main.c (check_options, flexinit), src/scan.l (<OPTION>) and')
     L.append('-- src/flexdef.h of /repo\'s current tree.  Do not edit.')
@@ -565,18 +677,36 @@ def generate(src):
     for i, n in enumerate(tr.fields):
         L.append('def %s : Fld := %d' % (ident(n), i))
     L.append('end F')
+    L.append('/-- the m4 symbols are the variables numbered from here on -/')
+    L.append('def symBase : Fld := %d' % sym_base)
     L.append('def msgs : List String := [%s]' % ', '.join(q(m) for m in tr.msgs))
     L.append('/-- the values of its C type each option variable can hold -/')
     L.append('def domains : List (Fld × List Int) := [%s]' % ', '.join('(%d, [%s])' % (i, ', '.join(lean_int(v) for v in d)) for i, d in enumerate(domains)))
     L.append('/-- check_options() of src/main.c, the part about option variables -/')
     L.append('def checkOptions : Stmt :=\n  ' + prog)
+    L.append('/-- readin() of src/main.c: the m4 symbols handed to the skeleton (all undefined before) -/')
+    L.append('def defineSymbols : Stmt :=\n  ' + defs_prog)
+    L.append('/-- symbols whose every definition site was translated -/')
+    L.append('def symbols : List (String × Fld) := [%s]' % ', '.join('(%s, %d)' % (q(n[4:]), tr.fields.index(n)) for n in modelled_syms))
+    L.append('/-- symbols also defined inside a statement that was not translated: nothing is claimed about them -/')
+    L.append('def unmodelledSymbols : List String := [%s]' % ', '.join(q(x) for x in sorted(lost)))
+    L.append('/-- X / NO_X pairs among `symbols` -/')
+    L.append('def complementaryPairs : List (Fld × Fld) := [%s]' % ', '.join('(%d, %d)' % p for p in pairs))
     L.append('/-- flexinit(): everything zero, then -/')
     L.append('def defaults : List (Fld × Int) := [%s]' % ', '.join('(%d, %s)' % (tr.fields.index(n), lean_int(v)) for n, v in defaults.items() if n in tr.fields))
+    oid = lambda n: 'o_' + re.sub(r'\W', '_', n.replace('+', 'p'))
+    L.append('namespace O')
+    for n, a, b in effects:
+        L.append('def %s_on : Stmt := %s' % (oid(n), a))
+        L.append('def %s_off : Stmt := %s' % (oid(n), b))
+    L.append('end O')
     L.append('/-- `%option name` / `%option noname` (scan.l): name, effect with option_sense true, with false -/')
-    L.append('def optionEffects : List (String × Stmt × Stmt) := [\n  %s]' % ',\n  '.join('(%s, %s, %s)' % (q(n), a, b) for n, a, b in effects))
+    L.append('def optionEffects : List (String × Stmt × Stmt) := [\n  %s]' % ',\n  '.join('(%s, O.%s_on, O.%s_off)' % (q(n), oid(n), oid(n)) for n, a, b in effects))
     L.append('end FlexVerif.Gen.Options')
     info = {'fields': list(tr.fields), 'messages': list(tr.msgs), 'options_modelled': [n for n, _, _ in effects],
             'options_not_modelled': unmodelled, 'opaque_statements_in_check_options': nopaque_check,
+            'quiet_symbols': sorted(QUIET), 'symbol_names': [n[4:] for n in modelled_syms],
+            'readin_volatile_variables': sorted(volatile), 'symbols_modelled': len(modelled_syms), 'symbols_unmodelled': sorted(lost), 'complementary_pairs': len(pairs),
             'domains': {n: d for n, d in zip(tr.fields, domains)}, 'defaults': {n: v for n, v in defaults.items() if n in tr.fields}}
     return '\n'.join(L) + '\n', info
 
